@@ -7,9 +7,6 @@ From Coq Require Import String Lia.
 Open Scope string_scope.
 Open Scope N_scope.
 
-(* a source function that no longer means what the model says must make a lemma fail, not hang *)
-Set Default Timeout 100.
-
 (* a source function that no longer means what the model says can make `cbn` explode:
    bound every command, the lemma then simply fails *)
 
@@ -96,7 +93,7 @@ Lemma src_round_up_to_ok n d en : pow2 d -> d < W ->
   call_fn src_fns en "round_up_to" [VN n; VN d] = Ret (vopt (round_up_to n d)).
 Proof.
   intros Hp Hd. pose proof (pow2_pos d Hp) as Hd0.
-  rsimpl. replace (1 <=? d) with true by (symmetry; apply N.leb_le; lia). cbn.
+  Time rsimpl. replace (1 <=? d) with true by (symmetry; apply N.leb_le; lia). cbn.
   unfold round_up_to, checked_add.
   destruct (n + (d - 1) <? W) eqn:E; cbn; [|reflexivity].
   apply N.ltb_lt in E. rewrite land_lnot64 by exact E.
@@ -108,7 +105,7 @@ Lemma src_round_down_to_ok n d en : pow2 d -> n < W ->
   call_fn src_fns en "round_down_to" [VN n; VN d] = Ret (VN (rdown n d)).
 Proof.
   intros Hp Hn. pose proof (pow2_pos d Hp) as Hd0.
-  rsimpl. replace (1 <=? d) with true by (symmetry; apply N.leb_le; lia). cbn.
+  Time rsimpl. replace (1 <=? d) with true by (symmetry; apply N.leb_le; lia). cbn.
   rewrite land_lnot64 by exact Hn.
   change (N.ldiff n (d - 1)) with (rdown_mask n d). rewrite mask_rdown by exact Hp. reflexivity.
 Qed.
@@ -118,7 +115,7 @@ Lemma src_round_mut_ptr_down_to_ok p d en : pow2 d -> p < W ->
   call_fn src_fns en "round_mut_ptr_down_to" [VN p; VN d] = Ret (VN (rdown p d)).
 Proof.
   intros Hp Hn. pose proof (pow2_pos d Hp) as Hd0.
-  rsimpl. replace (1 <=? d) with true by (symmetry; apply N.leb_le; lia). cbn.
+  Time rsimpl. replace (1 <=? d) with true by (symmetry; apply N.leb_le; lia). cbn.
   change (N.land p (d - 1)) with (low_mask p d). rewrite mask_low by exact Hp.
   f_equal. f_equal. unfold wsub. rewrite rdown_sub_mod by lia.
   assert (Hm : p mod d <= p) by (apply N.mod_le; lia).
@@ -131,7 +128,7 @@ Lemma src_is_pointer_aligned_to_ok p d en : pow2 d -> p < W ->
   call_fn src_fns en "is_pointer_aligned_to" [VN p; VN d] = Ret (VB (p =? rdown p d)).
 Proof.
   intros Hp Hn. pose proof (pow2_pos d Hp) as Hd0.
-  rsimpl. replace (1 <=? d) with true by (symmetry; apply N.leb_le; lia). cbn.
+  Time rsimpl. replace (1 <=? d) with true by (symmetry; apply N.leb_le; lia). cbn.
   rewrite land_lnot64 by exact Hn.
   change (N.ldiff p (d - 1)) with (rdown_mask p d). rewrite mask_rdown by exact Hp. reflexivity.
 Qed.
@@ -180,7 +177,7 @@ Proof.
   fold (given_or_default given).
   set (A := N.max (N.max actual_calign m) (l_align l)) in *.
   pose proof (pow2_pos A HA) as HA0.
-  rsimpl. fold A.
+  Time rsimpl. fold A.
   replace (1 <=? A) with true by (symmetry; apply N.leb_le; lia).
   assert (G : match vopt given with VNone => Ret (VN actual_default) | VSome v => Ret v | _ => Stuck end
               = Ret (VN (given_or_default given))) by (destruct given; reflexivity).
@@ -247,7 +244,7 @@ Proof.
   intros Hm Hl Hmw Hlw Hp Hsp Hlay.
   pose proof (pow2_pos _ Hm) as Hm0. pose proof (pow2_pos _ Hl) as Hl0.
   unfold fast_ptr. cbn [k_malign actual].
-  rsimpl.
+  Time rsimpl.
   assert (T1 : (1 <=? l_align l) = true) by (apply N.leb_le; lia).
   assert (T2 : (1 <=? m) = true) by (apply N.leb_le; lia).
   assert (T3 : (start <=? ptr) = true) by (apply N.leb_le; lia).
